@@ -9,3 +9,6 @@ for p in C01 C02 C03 C04 C05 C06 C07 C08 C09 C10 C11 C12 C13 C14 C15 C16 C17; do
   e=$(date +%s)
   echo "$p rc=$rc $((e-s))s $(grep -c '^VIOLATION' .runall.$p.log) violations, $(grep -c '^KNOWN-FINDING' .runall.$p.log) known, $(grep -c '^MODEL-DRIFT' .runall.$p.log) drift"
 done
+# one line that cannot be missed: which checks did not end with rc=0
+bad=$(for p in C01 C02 C03 C04 C05 C06 C07 C08 C09 C10 C11 C12 C13 C14 C15 C16 C17; do if grep -q "^VIOLATION\|^BROKEN" .runall.$p.log 2>/dev/null; then printf "%s " $p; fi; done)
+echo "SUMMARY tier=$tier not-clean: ${bad:-none}"
